@@ -205,7 +205,9 @@ func (p *IGMPv3Query) UnmarshalBinary(data []byte) error {
 		return fmt.Errorf("The []byte is too short to unmarshal a full IGMPv3Query message.")
 	}
 	for j := 0; j < int(p.NumberOfSources); j++ {
-		p.SourceAddresses = append(p.SourceAddresses, data[n:n+4])
+		src := make(net.IP, 4)
+		copy(src, data[n:n+4])
+		p.SourceAddresses = append(p.SourceAddresses, src)
 		n += 4
 	}
 	return nil
@@ -304,7 +306,9 @@ func (p *IGMPv3GroupRecord) UnmarshalBinary(data []byte) error {
 		return fmt.Errorf("The []byte is too short to unmarshal a full IGMPv3GroupRecord message.")
 	}
 	for i := uint16(0); i < p.NumberOfSources; i++ {
-		p.SourceAddresses = append(p.SourceAddresses, data[n:n+4])
+		src := make(net.IP, 4)
+		copy(src, data[n:n+4])
+		p.SourceAddresses = append(p.SourceAddresses, src)
 		n += 4
 	}
 	for i := uint8(0); i < p.AuxDataLen; i++ {
